@@ -187,4 +187,5 @@ def fault_cases(tier):
         prog = (shp, P.SECOND_FEATURE)
         for trig, layer in cleanup_sites((shp,)):
             yield (prog, "default", None, {trig: [("c0", True, layer)]}, True)
+            yield (prog, "default", None, {trig: [("c0", "assert", layer)]}, True)
             yield (prog, "default", None, {trig: [("c0", False, layer)]}, True)
